@@ -365,6 +365,35 @@ func (e *Exec) zzIntrinsic(name string, args []Value) (Value, bool) {
 		}
 		out := e.ufBytes(nm, parts, n)
 		return e.bytesToSlice(out), true
+	// ---- abstract field elements (Real sort; DESIGN §2.5)
+	case "zzRVar":
+		return b.Var(e.argStr(args[0]), SReal), true
+	case "zzRFresh":
+		e.run.havocN++
+		return b.Var(fmt.Sprintf("rfresh!%d", e.run.havocN), SReal), true
+	case "zzRConst":
+		return b.RealConst(big.NewInt(int64(e.argInt(args[0])))), true
+	case "zzRAdd":
+		return b.Add(e.termOf(args[0]), e.termOf(args[1])), true
+	case "zzRSub":
+		return b.Sub(e.termOf(args[0]), e.termOf(args[1])), true
+	case "zzRMul":
+		return b.Mul(e.termOf(args[0]), e.termOf(args[1])), true
+	case "zzRNeg":
+		return b.Sub(b.RealConst(big.NewInt(0)), e.termOf(args[0])), true
+	case "zzREq":
+		return b.Eq(e.termOf(args[0]), e.termOf(args[1])), true
+	case "zzRInv":
+		// y with x*y = 1 (x must be non-zero: obligation)
+		x := e.termOf(args[0])
+		nz := b.BNot(b.Eq(x, b.RealConst(big.NewInt(0))))
+		if !nz.isTrue() {
+			r.check(e, "obligation", "inverse of zero field element", nz)
+		}
+		e.run.havocN++
+		y := b.Var(fmt.Sprintf("rinv!%d", e.run.havocN), SReal)
+		r.assume(e, b.Eq(b.Mul(x, y), b.RealConst(big.NewInt(1))), "")
+		return y, true
 	case "zzUF64":
 		// zzUF64(name, outWords, args ...[]uint64) []uint64
 		nm := e.argStr(args[0])
